@@ -198,8 +198,12 @@ class GaussianMerge(Compiler):
                         )
 
                     # Add edges to all successor operations not merged
+                    # (also the gaussian successors that could not be merged)
                     self.add_non_gaussian_successor_gates(
-                        gaussian_transform, successors, displacement_mapping
+                        gaussian_transform,
+                        [s for s in successors if s not in merged_gaussian_ops],
+                        displacement_mapping,
+                        unmerged=True,
                     )
 
                     # Add edges for all successor/predecessor operations of the merged operations
@@ -228,14 +232,14 @@ class GaussianMerge(Compiler):
         return d_gates
 
     def add_non_gaussian_successor_gates(
-        self, gaussian_transform, successors, displacement_mapping
+        self, gaussian_transform, successors, displacement_mapping, unmerged=False
     ):
         """
         Updates the DAG by adding edges between new gaussian transform and non-gaussian operations
         from original operations.
         """
         for successor_op in successors:
-            if get_op_name(successor_op) not in self.gaussian_ops:
+            if unmerged or get_op_name(successor_op) not in self.gaussian_ops:
                 # If there are no displacement gates.
                 # Add edges from it to successor gates if they act upon the same qumodes
                 if not displacement_mapping:
